@@ -40,6 +40,7 @@ type Val struct {
 	Wide   *Wide // this value is the low (Part 0) or high (Part 1) half of Wide
 	Part   int
 	CarryOf *Wide // this value is the carry out of the low-half addition that formed CarryOf
+	Poly    *Poly // exact integer value as a polynomial over inputs and carry variables (nil: unknown); see poly.go
 }
 
 var (
